@@ -52,7 +52,9 @@ def _zone(key):
         return pendulum.timezone(key)
     if isinstance(key, float):
         return key
-    return pendulum.timezone(key)
+    from .world import World     # named zone: the lookup is part of the replayed zone-cache history
+
+    return World.zone(key)
 
 
 def _ntz(spec):
@@ -222,6 +224,15 @@ def execute(op, env: Env):
         except TypeError:
             h = None
         return [a == b, b == a, h]
+    if f == "range5":
+        a = build(op[1], env)
+        b = a.add(**{op[2]: op[3] * op[4]})
+        out = []
+        for k, v in enumerate(pendulum.interval(a, b).range(op[2], op[3])):
+            if k >= 5:
+                break
+            out.append(v)
+        return out
     if f == "build":
         return build(op[1], env)
     if f == "rebuild":
